@@ -100,8 +100,9 @@ def classify(res, wmap, rs_text, unit):
 
     def ob_at(line):
         for o in obs:
-            if o["out_line"] and o["out_line"] <= line <= o["out_end_line"]:
-                return o
+            for (a, b) in o.get("sites", []):
+                if a <= line <= b:
+                    return o
         return None
 
     def func_at(line):
@@ -111,8 +112,10 @@ def classify(res, wmap, rs_text, unit):
         return None
 
     def src_at(line):
-        if 0 <= line < len(line_src) and line_src[line]:
-            return line_src[line]
+        # the line itself, else the next woven line that carries source text (ghost asserts sit just before their exit)
+        for l in range(line, min(line + 15, len(line_src))):
+            if line_src[l]:
+                return line_src[l]
         return None
 
     failures = []
@@ -144,7 +147,7 @@ def classify(res, wmap, rs_text, unit):
                 tag = t
         # location: prefer a span inside a woven function body that is not the clause itself
         for s in sec + prim:
-            if ob is not None and ob["out_line"] <= s["line_start"] <= ob["out_end_line"] and ob["kind"] in ("requires", "ensures"):
+            if ob is not None and ob["kind"] in ("requires", "ensures") and any(a <= s["line_start"] <= b for (a, b) in ob.get("sites", [])):
                 continue
             if func_at(s["line_start"]):
                 where = s
@@ -276,7 +279,11 @@ def verify_unit(here, repo, unit, tmp, seed, tier):
             raise Undecided("compile error in vacuity unit: " + d.get("rendered", "")[:2000])
         for s in d.get("spans", []):
             failed_lines.add(s["line_start"])
-    vac_obs = [o for o in vmap["obligations"] if o["kind"] == "vacuity"]
+    vac_obs = []
+    for o in vmap["obligations"]:
+        if o["kind"] == "vacuity":
+            for (a, b) in o.get("sites", []):
+                vac_obs.append({"func": o["func"], "out_line": a, "out_end_line": b})
     vac_pass = [o for o in vac_obs if not any(o["out_line"] <= l <= o["out_end_line"] for l in failed_lines)]
     for o in vac_pass:
         ls = vmap["line_src"]
